@@ -89,21 +89,26 @@ def r_pair_eq(A, ctx, scope, rule="R-PAIR-EQ"):
             signal.signal(signal.SIGALRM, old)
 
     # ---------------------------------------------------------------- epochs
-    def epoch_case(fn_name, module, dname, pcls, ws, multitask=False, group=False):
+    def epoch_case(fn_name, module, dname, pcls, ws, multitask=False, group=False, zero_task=False):
         for sparse in (False, True):
             fn = _func(A, module, fn_name + ("_sparse" if sparse else ""))
             dcls = _cls(prog.datafits, dname)
-            key = f"{fn.fq}::{dname}"
+            key = f"{fn.fq}::{dname}" + ("::zero task" if zero_task else "")
 
             def body(fn=fn, sparse=sparse, dcls=dcls, key=key):
                 L, rg = fresh()
                 dobj = make_obj(prog, dcls)
                 pobj = make_obj(prog, pcls) if pcls is not l1 else Obj(l1, {"alpha": sym("alpha"), "positive": False})
                 if multitask:
-                    Y = Mat(Vec(sym(f"Y{i}{t}") for t in range(T)) for i in range(N))
+                    # zero_task: the last task has identically zero targets, coefficients and model fit
+                    # (a legitimate degenerate problem: that column of W stays exactly 0 while the
+                    # others move, so "the row changed" must mean "some entry changed")
+                    def s_(name, t):
+                        return const(0) if zero_task and t == T - 1 else sym(name)
+                    Y = Mat(Vec(s_(f"Y{i}{t}", t) for t in range(T)) for i in range(N))
                     init(L, dobj, sparse, Y)
-                    W0 = Mat(Vec(sym(f"W{j}{t}") for t in range(T)) for j in range(P))
-                    XW0 = Mat(Vec(sym(f"XW{i}{t}") for t in range(T)) for i in range(N))
+                    W0 = Mat(Vec(s_(f"W{j}{t}", t) for t in range(T)) for j in range(P))
+                    XW0 = Mat(Vec(s_(f"XW{i}{t}", t) for t in range(T)) for i in range(N))
                     W, XW = L.copy(W0), L.copy(XW0)
                     lc = Vec(sym(f"lc{j}") for j in range(P))
                     L.call_function(fn, (list(csc) if sparse else [X]) + [Y, W, XW, lc, dobj, pobj, ws])
@@ -129,6 +134,8 @@ def r_pair_eq(A, ctx, scope, rule="R-PAIR-EQ"):
     epoch_case("_cd_epoch", "skglm.solvers.anderson_cd", "Logistic", l1, Vec([2, 0]))
     epoch_case("_bcd_epoch", "skglm.solvers.group_bcd", "QuadraticGroup", wgl2, Vec([1]), group=True)
     epoch_case("_bcd_epoch", "skglm.solvers.multitask_bcd", "QuadraticMultiTask", l21, Vec([2]), multitask=True)
+    epoch_case("_bcd_epoch", "skglm.solvers.multitask_bcd", "QuadraticMultiTask", l21, Vec([2, 0]), multitask=True,
+               zero_task=True)
 
     # ---------------------------------------------------------------- Gram epoch
     gfn = _func(A, "skglm.solvers.gram_cd", "_gram_cd_epoch")
